@@ -44,6 +44,8 @@ Inductive err :=
 | XScopeUnknown (n : string)      (* "Scope with name .. does not exist!" *)
 | XScopeLeftOpen (ns : list string) (* flow end reached with an open scope *)
 | XCatchEmpty                     (* catch_pattern_failure_label.pop(-1) on an empty list *)
+| XNoLoopTarget                   (* Break / Continue left with label=None: a loop exit / loop head
+                                     jump that refers to nothing (slide() silently skips it) *)
 | XComposite (what : string).
 
 (* initialize_flow: element_labels.update({name: idx}) in order - the LAST definition wins *)
@@ -67,7 +69,7 @@ Definition remove_s (n : string) (l : list string) : list string :=
 (* elements over which a head simply moves to the next position (for EBlock: the success case) *)
 Definition sequential (e : elem) : bool :=
   match e with
-  | ELabel _ | EMerge _ | EWait | EPlain _ | EBlock | EBreak None | EContinue None => true
+  | ELabel _ | EMerge _ | EWait | EPlain _ | EBlock => true
   | _ => false
   end.
 
@@ -115,6 +117,8 @@ Section Sem.
       nth_error es p = Some EAbort -> lbl es l = None -> fails (p, sc, l :: ct) (XLabel l)
   | F_block p sc ct l :
       nth_error es p = Some EBlock -> lbl es l = None -> fails (p, sc, l :: ct) (XLabel l)
+  | F_break_none p sc ct : nth_error es p = Some (EBreak None) -> fails (p, sc, ct) XNoLoopTarget
+  | F_continue_none p sc ct : nth_error es p = Some (EContinue None) -> fails (p, sc, ct) XNoLoopTarget
   | F_catch_pop p sc : nth_error es p = Some (ECatch None) -> fails (p, sc, []) XCatchEmpty
   | F_begin p sc ct n :
       nth_error es p = Some (EBegin n) -> mem n sc = true -> fails (p, sc, ct) (XScopeReopened n)
